@@ -2,13 +2,16 @@ package geojson
 
 import (
 	"encoding/json"
+	"math"
 
 	"github.com/ctessum/geom"
 )
 
 // The Coordinates of a Geometry are either what encoding/json produces
 // (nested []interface{} of float64) or the typed slices that ToGeoJSON
-// produces ([]float64, [][]float64, ...); both are accepted.
+// produces ([]float64, [][]float64, ...); both are accepted. A coordinate
+// that is not a finite number is invalid: it has no JSON representation,
+// and Encode would refuse the decoded geometry.
 
 func decodeCoordinates(jsonCoordinates interface{}) []float64 {
 	var coordinates []float64
@@ -25,6 +28,11 @@ func decodeCoordinates(jsonCoordinates interface{}) []float64 {
 		}
 	default:
 		panic(&InvalidGeometryError{})
+	}
+	for _, c := range coordinates {
+		if math.IsNaN(c) || math.IsInf(c, 0) {
+			panic(&InvalidGeometryError{})
+		}
 	}
 	return coordinates
 }
